@@ -60,6 +60,13 @@ Definition guarded_fields : list (string * string) :=
   [ ("Client.conn", "Client.mu"); ("Client.address", "Client.mu");
     ("SerialClient.serialPort", "SerialClient.mu");
     ("Server.listener", "Server.mu"); ("Server.activeConnections", "Server.mu") ].
+(* fields that are written once before sharing (configuration rule below) but whose every READ --
+   in particular every call through them -- must be made while holding the mutex: the user's hook
+   object is only ever called by the lock holder, so it need not be goroutine-safe and its
+   BeforeWrite / AfterEachRead / BeforeParse calls of one request are never interleaved with
+   another request's *)
+Definition locked_use_fields : list (string * string) :=
+  [ ("Client.hooks", "Client.mu"); ("SerialClient.hooks", "SerialClient.mu") ].
 Definition atomic_fields : list string :=
   [ "Server.isShutdown"; "Server.activeConnectionCount"; "connection.state" ].
 Definition all_mutexes : list string := [ "Client.mu"; "SerialClient.mu"; "Server.mu" ].
@@ -80,6 +87,8 @@ Fixpoint assoc (l : list (string * string)) (k : string) : option string :=
 Definition mem (k : string) (l : list string) : bool := existsb (String.eqb k) l.
 Definition guarded_by (f m : string) : bool :=
   match assoc guarded_fields f with Some m' => String.eqb m' m | None => false end.
+Definition locked_use (f m : string) : bool :=
+  match assoc locked_use_fields f with Some m' => String.eqb m' m | None => false end.
 Definition is_guarded (f : string) : bool :=
   match assoc guarded_fields f with Some _ => true | None => false end.
 
@@ -117,7 +126,8 @@ Definition go_bodies_list (l : list stmt) : list (list stmt) := flat_map go_bodi
 
 Inductive cstmt :=
 | CLock | CUnlock | CDeferUnlock
-| CUse                               (* access to a field guarded by the mutex *)
+| CUse                               (* access to a field guarded by the mutex (or a read of /
+                                        call through a locked-use field, see above) *)
 | CBranch (a b : list cstmt)
 | CLoop (body : list cstmt)
 | CBreak | CContinue | CRet
@@ -146,7 +156,8 @@ Section Elab.
     | Lock m' => Some (if String.eqb m' m then [CLock] else [])
     | Unlock m' => Some (if String.eqb m' m then [CUnlock] else [])
     | DeferUnlock m' => Some (if String.eqb m' m then [CDeferUnlock] else [])
-    | Use f _ => Some (if guarded_by f m then [CUse] else [])
+    | Use f a => Some (if guarded_by f m || (match a with R => locked_use f m | W => false end)
+                       then [CUse] else [])
     | Call f => match call f with Some b => Some [CScope b] | None => None end
     | Go _ => Some []
     | Branch alts => ealts alts
